@@ -164,6 +164,43 @@ def main(depth, maxlen):
                     for h, i in nxt:
                         seen.setdefault((i, h[-1][0], len(h)), (h, i))
                     frontier = list(seen.values())
+    # random longer histories on longer sequences (moves by larger steps, reads past the end followed by moves back)
+    import random
+    rnd = random.Random(int(__import__('os').environ.get('VERIF_SEED', '0') or 0))
+    trials = 6000 if depth <= 3 else 60000
+    for t in range(trials):
+        kind = rnd.choice(('str', 'tok'))
+        n = rnd.choice([0, 1, 2, 3, 5, 17, 20, 33, 40])
+        seq = [rnd.choice('ab') for _ in range(n)]
+        buf = make(kind, seq)
+        i = 0
+        hist = []
+        for step in range(rnd.randrange(2, 14)):
+            cands = [('next',), ('hasNext', 1), ('peek', rnd.randrange(0, 25)), ('position',), ('item', rnd.randrange(0, n + 2)),
+                     ('slice', rnd.randrange(0, n + 1), None), ('peekr', 0, rnd.randrange(0, 25)), ('startswith', 'ab'),
+                     ('nfu', 'b'), ('fu', 'b')]
+            if i < n:
+                cands.append(('forward', rnd.randrange(1, n - i + 1)))
+            if i > 0:
+                j = rnd.randrange(1, i + 1)
+                cands += [('backward', j), ('peek', -j), ('peekr', -j, 1)]
+            op = rnd.choice(cands)
+            want, i2 = model_apply(seq, i, op)
+            try:
+                got = real_apply(buf, op)
+            except Exception as e:
+                got = 'EXC:' + type(e).__name__
+            hist.append(op)
+            sw.case((kind, ''.join(seq), tuple(hist)), True)
+            if want == 'skip':
+                i = buf.position
+                continue
+            if got != want or buf.position != i2:
+                sw.violation('buffer-model-mismatch:' + op[0],
+                             '%s-backed %r after %r: real %r@%d, model %r@%d' % (kind, ''.join(seq), hist, got, buf.position, want, i2),
+                             replay_src(kind, seq, list(hist)))
+                break
+            i = i2
     sw.emit()
 
 
